@@ -23,7 +23,8 @@ Tie        : translator/gen_lockage.py regenerates the lease-age kernel of _try_
 Oracles    : implementation-only, on every state of every schedule: critical sections never overlap,
 (search)     is_held() true only while the kernel really holds the lock (outside flock probe), a dead
              holder frees the lock, TimeoutError neither early nor late; S3: at most one live holder,
-             takeover only after the lease lapsed, superseded holder's is_held() false / renew refused --
+             takeover only after the lease lapsed, superseded holder's is_held() false / renew refused, is_held()
+             True only while the store's object is the caller's (also while the heartbeat loop ticks with failing renewals) --
              in every environment above (the oracles read the fake store's own log of instants, never the
              library's clocks).  Real heartbeat thread against the wall clock in a seed-drawn non-UTC zone.
              thorough: 8 processes x 2000 cycles on an unprotected counter, kill -9 of holders, real
@@ -75,7 +76,20 @@ MANIFEST_ENTRY = {
                   "Kernel flock exclusivity is the hypothesis flock_excl (exercised by real flock in every "
                   "run and by the multi-process stress in thorough). Zero client/server clock skew assumed. Zones are fixed "
                   "offsets (a DST switch = a zone change event); a naive LastModified makes acquire() raise TypeError "
-                  "(modelled, fails closed, not judged). O_EXCL fallback and S3PollingLockProvider out of scope.",
+                  "(modelled, fails closed, not judged). O_EXCL fallback and S3PollingLockProvider out of scope. "
+                  "NOT MODELLED (audit): (1) the model's clock is skew-free at MILLISECOND resolution while S3's LastModified has "
+                  "1 s resolution -- a written instant is truncated to the second, so the age a contender computes can exceed the "
+                  "true age by < 1 s and a real takeover can precede the true lease lapse by < 1 s (C19_s3_takeover_after_lease is "
+                  "about the model's exact LastModified); (2) FileLock's O_EXCL fallback (no fcntl / msvcrt: the lock file's "
+                  "existence is the lock, stale-file breaking, unlink on release) -- Model/FLock.v and every C19_flock_* theorem "
+                  "cover flock mode only; (3) FileLock.release() wraps unlock + os.close in `except Exception: pass`: when "
+                  "os.close (or the unlock) raises, _lock_fd / _locked are not reset and the instance keeps reporting "
+                  "_locked = True although the flock may be gone -- the model's release always succeeds, no close failure is "
+                  "injected; (4) both timeout theorems (C19_flock_timeout, C19_s3_timeout) are conditional on a Timeout RESULT: the "
+                  "S3 side has no bound on the number of rounds and the jitter is unconstrained. The heartbeat thread is driven "
+                  "as renew events, each ONE iteration of the real _heartbeat_loop (is_locked guard, _renew_once, exception "
+                  "swallowing are the library's code), including ticks whose renewal fails transiently while the loop keeps ticking "
+                  "past the lease, with is_held() queried at every point of such histories.",
     "technique": "Coq invariant / simulation proofs over interleaving models + kernel regenerated by translator + "
                  "deterministic-scheduler differential correspondence across process time zones",
     "design_ref": "DESIGN.md section 5 C19",
@@ -433,6 +447,40 @@ def fc19_schedule(lease_ms: int) -> List[List[Any]]:
             ["call", 2, "acquire", 2000], ["step", 2, "none", 300], ["step", 2, "none", 300]]
 
 
+def failing_heartbeat_schedules(lease_ms: int, quick: bool) -> List[List[List[Any]]]:
+    """Holder 0's heartbeat loop KEEPS TICKING (every lease/3) while its renewals fail -- transiently, or lost, or a mix with
+    renewals that succeed -- until, for the patterns without a late success, the lease really lapses; contender 1 then takes
+    over legitimately (or, layout 'polling', has been polling all along); holder 0's next tick is refused.  Holder 0's
+    is_held() -- the commit-point fence -- is queried AT EVERY POINT of that history, once and twice in a row, and must never
+    answer True once the object is the successor's."""
+    third = lease_ms // 3 + 34                 # three ticks pass the lease (lease 2000: 700, 1400, 2100)
+    patterns = [["transient"] * 3, ["transient"] * 4, ["lost", "transient", "transient", "transient"], ["transient", "none", "transient", "transient", "transient"],
+                ["permanent", "transient", "transient"], ["transient", "transient", "none"]]
+    if not quick:
+        patterns += [["transient"] * 6, ["none", "transient", "transient", "transient"], ["transient", "lost", "transient", "transient", "transient"],
+                     ["transient", "transient", "lost"], ["permanent"] * 3]
+    acq0 = [["call", 0, "acquire", 1000]] + [["step", 0, "none", 300]] * 4     # clock, create; surplus steps are no-ops
+    held0 = [["call", 0, "is_held"]] + [["step", 0, "none", 300]] * 4          # GET (+ sleep + GET after a blip); surplus steps are no-ops
+    out: List[List[List[Any]]] = []
+    for pat in patterns:
+        ticks = [[["tick", third], ["renew", 0, f]] for f in pat]
+        b_steps = [["step", 1, "none", 300]] * 14
+        tail = [["renew", 0, "none"], ["call", 1, "is_held"], ["step", 1, "none", 300], ["renew", 1, "none"]]
+        layouts = {
+            "after": acq0 + [e for t in ticks for e in t] + [["call", 1, "acquire", 3000]] + b_steps + tail,
+            "polling": acq0 + [["call", 1, "acquire", 4000]] + [e for t in ticks for e in (t + b_steps[:3])] + b_steps + tail,
+        }
+        for name, base in layouts.items():
+            points = range(len(acq0), len(base) + 1)
+            if quick and name == "polling":
+                points = range(len(acq0), len(base) + 1, 2)
+            for k in points:
+                out.append(base[:k] + held0 + base[k:])
+                if not quick or k % 3 == 0:
+                    out.append(base[:k] + held0 + held0 + base[k:])
+    return out
+
+
 # ---------------------------------------------------------------------------------- local lock: cases
 def flock_cases(ctx) -> Tuple[List[Driver], List[int]]:
     quick = ctx.tier == "quick"
@@ -571,6 +619,17 @@ def s3_cases(ctx) -> Dict[int, List[Driver]]:
                      "E": [["env"] + env, ["tick", lease * 1000 + 1]]}
         by_lease[2] += explore(lambda scripts_z=scripts_z: s3_driver(ctx, scripts_z, lease), 1, 120 if quick else 300, free_actors=("E",))
     n6 = len(by_lease[2])
+    # (1d) a heartbeat loop that keeps ticking while its renewals fail; the holder's is_held() at every point
+    for evs in failing_heartbeat_schedules(lease * 1000, quick):
+        dh = s3_driver(ctx, {}, lease)
+        try:
+            for ev in evs:
+                dh.events.append(ev)
+                dh.run.event(ev)
+        finally:
+            dh.run.close()
+        by_lease[2].append(dh)
+    n7 = len(by_lease[2])
     # (2) random: 3 clients, faults, renewals, deaths, clock jumps
     clients = [0, 1, 2]
     for _ in range(200 if quick else 2000):
@@ -603,7 +662,8 @@ def s3_cases(ctx) -> Dict[int, List[Driver]]:
                                  "renew_and_lapse_everywhere": n3 - n2, "three_clients_release_race": n4 - n3,
                                  "contended_in_zone_and_rendering": n5 - n4, "environment_change_everywhere": n6 - n5,
                                  "environments": [e for e in envs],
-                                 "random_three_with_faults_and_environments": sum(len(v) for v in by_lease.values()) - n6 - 1,
+                                 "failing_heartbeat_is_held_everywhere": n7 - n6,
+                                 "random_three_with_faults_and_environments": sum(len(v) for v in by_lease.values()) - n7 - 1,
                                  "impl_wall_s": round(time.time() - t0, 1)}
     return by_lease
 
@@ -942,7 +1002,10 @@ def run(ctx) -> None:
                 "under the cooperative scheduler and on the Coq model; enumerated: all interleavings of 2 contenders with <= 3 "
                 "preemptions, environment events (death / clock jump past the lease / renewal / open failure) at every point, "
                 "the contended-lock schedules again in each process time zone x LastModified rendering of S3_ENVS and with a "
-                "zone / rendering change at every point, random schedules of 3 clients with faults and random environments; "
+                "zone / rendering change at every point, a heartbeat loop that keeps ticking every lease/3 while its renewals fail "
+                "(transient / lost / permanent / mixed with successes; 6 patterns quick, 11 thorough) until the lease lapses and a contender "
+                "takes over (after the ticks, or polling all along), with the holder's is_held() inserted at every point, once and twice; "
+                "random schedules of 3 clients with faults and random environments; "
                 "a case is distinct by its full event list; oracles judge every intermediate state")
     ctx.trusted_base += [
         "hypothesis flock_excl: the kernel grants LOCK_EX on an inode only if no other open file description holds it "
@@ -956,8 +1019,8 @@ def run(ctx) -> None:
         ".timestamp() / mktime(timetuple()) reading naive fields as local time; fixed-offset zones; exercised by the "
         "correspondence under real TZ settings",
         "harness: harness/lib/coop.py (scheduler), lockshims.py (patched primitives), fakes3_lock.py, lockruns.py, "
-        "harness/props/c19.py; the heartbeat thread is replaced by explicit renew events calling _renew_once under the "
-        "same guard as _heartbeat_loop",
+        "harness/props/c19.py; the heartbeat thread is replaced by explicit renew events, each running ONE iteration of the "
+        "real _heartbeat_loop (its stop-event wait answers 'not stopped' once, then 'stopped'); the sleep between two ticks is a tick event",
     ]
     ctx.assumptions += [
         "scope: flock mode (fcntl available) and S3LockProvider (conditional writes); O_EXCL fallback and S3PollingLockProvider out of scope",
